@@ -118,6 +118,11 @@ fn run_case(plan: &Plan) -> Judged {
 	let steps = plan.params.get("steps").copied().unwrap_or(400) as usize;
 	let n_steps = rng.range(steps as u64 / 4, steps as u64) as usize;
 	let big_values = rng.chance(1, 2);
+	// one case in 32: a few values of several megabytes - an overflow chain of more than a
+	// thousand pages, so that freeing it needs a second trunk page of the free list (a trunk
+	// holds about 1020 page numbers) and re-inserting drains the list across trunks
+	let huge = rng.chance(1, 32);
+	let n_steps = if huge { n_steps.min(160) } else { n_steps };
 	let mut tag = 0u32;
 	let mut reopens = 0;
 	for step in 0..n_steps {
@@ -127,7 +132,14 @@ fn run_case(plan: &Plan) -> Judged {
 		match rng.below(20) {
 			0..=8 => {
 				tag += 1;
-				let len = if big_values && rng.chance(1, 6) { rng.range(3000, 12500) as usize } else { rng.range(0, 300) as usize };
+				let len = if huge && rng.chance(1, 12) {
+					j.count("huge_values", 1);
+					rng.range(500_000, 5_000_000) as usize
+				} else if big_values && rng.chance(1, 6) {
+					rng.range(3000, 12500) as usize
+				} else {
+					rng.range(0, 300) as usize
+				};
 				let v = value_of(tag, len);
 				if let Err(e) = tree.insert(&ek, &v) {
 					fail(&mut j, "op_failed", format!("step {}: insert({}, {} bytes) failed: {}", step, hex(&ek[..ek.len().min(24)]), len, e));
@@ -251,7 +263,7 @@ fn run_case(plan: &Plan) -> Judged {
 		let cyc_keys: Vec<Vec<u8>> = ukeys.iter().take(60).map(|k| enc(k, 3).0).collect();
 		for cycle in 0..8 {
 			for (i, k) in cyc_keys.iter().enumerate() {
-				if let Err(e) = t.insert(k, value_of(i as u32, if big_values && i % 7 == 0 { 9000 } else { 120 })) {
+				if let Err(e) = t.insert(k, value_of(i as u32, if huge && i == 3 { 4_400_000 } else if big_values && i % 7 == 0 { 9000 } else { 120 })) {
 					fail(&mut j, "op_failed", format!("cycle {} insert failed: {}", cycle, e));
 				}
 			}
